@@ -30,7 +30,96 @@ Ret(st) == [st |-> st, br |-> "ret"]
 Br(st, b) == [st |-> st, br |-> b]
 Set1(st, x, val) == [st EXCEPT !.vals[x] = val]
 
-Apply(st, s, B) ==
+
+\* ---- input / output ------------------------------------------------------------------------------
+\* st.inp = [bits |-> sequence of 0/1, pos |-> bits consumed]  (zeros are served after the end);  st.out = bits written
+InBit(st, i) == IF st.inp.pos + i <= Len(st.inp.bits) THEN st.inp.bits[st.inp.pos + i] ELSE 0
+RECURSIVE TakeVal(_, _, _)
+TakeVal(st, k, i) == IF i > k THEN IZero ELSE IAdd(IF InBit(st, i) = 1 THEN IShl(IOne, i - 1) ELSE IZero, TakeVal(st, k, i + 1))
+Take(st, k) == [v |-> TakeVal(st, k, 1), st |-> [st EXCEPT !.inp.pos = @ + k]]       \* k bits, least significant first
+BitsOfInt(x, k) == [i \in 1..k |-> MBit(x.mag, i - 1)] \o <<>>                          \* non-negative x
+EmitBits(st, bits) == [st EXCEPT !.out = @ \o bits]
+ByteBits(c) == BitsOfInt(NatI(c), 8)
+RECURSIVE EmitChars(_, _, _)
+EmitChars(st, cs, i) == IF i > Len(cs) THEN st ELSE EmitChars(EmitBits(st, ByteBits(cs[i])), cs, i + 1)
+Small(x) == MToNat(x.mag)                                                              \* a value below 2^24
+
+DigitChar(d, upper) == IF d < 10 THEN 48 + d ELSE (IF upper THEN 55 ELSE 87) + d
+HexDigit(x, i) == Small(Low(16, IShr(x, 4 * i), 1))                                    \* hex digit i of x
+RECURSIVE HexChars(_, _, _, _)
+\* the n hex digits of x, most significant first, without leading zeros (at least one digit)
+HexChars(x, i, upper, started) ==
+    IF i < 0 THEN (IF started THEN <<>> ELSE <<48>>)
+    ELSE LET d == HexDigit(x, i)
+         IN IF d = 0 /\ ~started THEN HexChars(x, i - 1, upper, FALSE)
+            ELSE <<DigitChar(d, upper)>> \o HexChars(x, i - 1, upper, TRUE)
+RECURSIVE DecChars(_)
+DecChars(x) == IF ILt(x, NatI(10)) THEN <<48 + Small(x)>> ELSE DecChars(IFloorDiv(x, NatI(10))) \o <<48 + Small(IMod(x, NatI(10)))>>
+HexOfChar(c) == IF c >= 48 /\ c <= 57 THEN c - 48 ELSE IF c >= 97 /\ c <= 102 THEN c - 87 ELSE IF c >= 65 /\ c <= 70 THEN c - 55 ELSE 99
+IsDigit(c) == c >= 48 /\ c <= 57
+
+\* read a decimal number: optional '-' (if signed), digits; stops at the first other byte.  [v, stop, st, neg]
+RECURSIVE ReadDigits(_, _, _, _)
+ReadDigits(st, acc, M, fuel) ==
+    LET t == Take(st, 8)  c == Small(t.v)
+    IN IF IsDigit(c) /\ fuel > 0 THEN ReadDigits(t.st, IMod(IAdd(IMul(acc, NatI(10)), NatI(c - 48)), M), M, fuel - 1)
+       ELSE [v |-> acc, stop |-> c, st |-> t.st]
+ReadDec(st, signed, M) ==
+    LET t == Take(st, 8)  c == Small(t.v)
+    IN IF signed /\ c = 45
+       THEN LET r == ReadDigits(t.st, IZero, M, 200) IN [r EXCEPT !.v = IMod(INeg(r.v), M)]
+       ELSE ReadDigits(st, IZero, M, 200)
+
+ApplyIO(st, s, B) ==
+    LET V(i) == st.vals[s.v[i]]
+        n == s.n
+        SetV(t, i, val) == [t EXCEPT !.vals[s.v[i]] = val]
+        RetD(t, dc) == [st |-> t, br |-> "ret", dontcare |-> dc]
+        BrD(t, b, dc) == [st |-> t, br |-> b, dontcare |-> dc]
+    IN CASE s.k = "in_hex"    -> LET t == Take(st, 4) IN RetD(SetV(t.st, 1, Put(16, V(1), 1, t.v)), {})
+         [] s.k = "in_bytes"  -> LET t == Take(st, 8 * n) IN RetD(SetV(t.st, 1, Put(B, V(1), (IF B = 16 THEN 2 ELSE 8) * n, t.v)), {})
+         [] s.k = "in_bit"    -> LET t == Take(st, 1) IN RetD(SetV(t.st, 1, Put(2, V(1), 1, t.v)), {})
+         [] s.k = "in_as_hex" ->      \* n ascii hex digits, the first one is the most significant
+                LET RECURSIVE R(_, _, _)
+                    R(t, i, acc) == IF i = n THEN [ok |-> TRUE, st |-> t, v |-> acc]
+                                    ELSE LET q == Take(t, 8)  d == HexOfChar(Small(q.v))
+                                         IN IF d = 99 THEN [ok |-> FALSE, st |-> q.st, v |-> acc]
+                                            ELSE R(q.st, i + 1, IAdd(IShl(acc, 4), NatI(d)))
+                    r == R(st, 0, IZero)
+                IN IF r.ok THEN RetD(SetV(r.st, 1, Put(16, V(1), n, r.v)), {}) ELSE BrD(r.st, "error", {s.v[1]})
+         [] s.k \in {"in_dec_until", "in_idec_until"} ->      \* v = <<dst, stop_byte>>
+                LET r == ReadDec(st, s.k = "in_idec_until", Pw(16, n))
+                IN RetD([r.st EXCEPT !.vals[s.v[1]] = Put(16, V(1), n, r.v), !.vals[s.v[2]] = Put(16, V(2), 2, NatI(r.stop)),
+                                     !.addc = 0], {})
+         [] s.k \in {"in_dec", "in_idec"} ->
+                LET r == ReadDec(st, s.k = "in_idec", Pw(16, n))
+                    t == [r.st EXCEPT !.vals[s.v[1]] = Put(16, V(1), n, r.v), !.addc = 0]
+                IN IF r.stop \in {0, 10} THEN RetD(t, {}) ELSE BrD(t, "error", {s.v[1]})
+         [] s.k = "out_hex"   -> RetD(EmitBits(st, BitsOfInt(Low(16, V(1), 1), 4)), {})
+         [] s.k = "out_bytes" -> RetD(EmitBits(st, BitsOfInt(Low(B, V(1), (IF B = 16 THEN 2 ELSE 8) * n), 8 * n)), {})
+         [] s.k = "out_bit"   -> RetD(EmitBits(st, BitsOfInt(Low(2, V(1), 1), 1)), {})
+         [] s.k = "print_digits" ->   \* hex.print_as_digit n, x, upper: n digits, most significant first   (c = upper)
+                RetD(EmitChars(st, [i \in 1..n |-> DigitChar(HexDigit(V(1), n - i), ~IIsZero(s.c))], 1), {})
+         [] s.k = "print_bits" ->     \* bit.print_as_digit n, x: '0'/'1', least significant first
+                RetD(EmitChars(st, [i \in 1..n |-> 48 + MBit(V(1).mag, i - 1)], 1), {})
+         [] s.k \in {"print_uint", "print_int"} ->     \* m = x_prefix flag, c = uppercase flag; n digits (hex) / n bits (bit: n divisible by 4, capitals)
+                LET nd == IF B = 16 THEN n ELSE n \div 4
+                    low == Low(B, V(1), n)
+                    neg == s.k = "print_int" /\ Signed(B, V(1), n).neg
+                    mag == IF neg THEN IMod(INeg(low), Pw(B, n)) ELSE low
+                    upper == IF B = 16 THEN ~IIsZero(s.c) ELSE TRUE
+                    cs == (IF neg THEN <<45>> ELSE <<>>) \o (IF s.m # 0 THEN <<48, 120>> ELSE <<>>) \o HexChars(mag, nd - 1, upper, FALSE)
+                IN RetD(EmitChars(st, cs, 1), {})
+         [] s.k \in {"print_dec_uint", "print_dec_int"} ->
+                LET low == Low(B, V(1), n)
+                    neg == s.k = "print_dec_int" /\ Signed(B, V(1), n).neg
+                    mag == IF neg THEN IMod(INeg(low), Pw(B, n)) ELSE low
+                IN RetD(EmitChars(st, (IF neg THEN <<45>> ELSE <<>>) \o DecChars(mag), 1), {})
+         [] s.k = "bit2hex"   -> RetD(SetV(st, 1, Put(16, V(1), (n + 3) \div 4, Low(2, V(2), n))), {})      \* hex[:(n+3)/4] = bit[:n]
+         [] s.k = "hex2bit"   -> RetD(SetV(st, 1, Put(2, V(1), 4 * n, Low(16, V(2), n))), {})               \* bit[:4n] = hex[:n]
+
+
+ApplyCore(st, s, B) ==
     LET V(i) == st.vals[s.v[i]]
         n == s.n
         L(i) == Low(B, V(i), n)
@@ -137,4 +226,8 @@ Apply(st, s, B) ==
          [] s.k = "div10"    ->         \* bit.div10: dst = src / 10, src = src % 10   v = <<dst, src>>
                 [st |-> [st EXCEPT !.vals[s.v[1]] = Put(B, V(1), n, IFloorDiv(L(2), NatI(10))),
                                    !.vals[s.v[2]] = Put(B, V(2), n, IMod(L(2), NatI(10)))], br |-> "ret"]
+IOKeys == {"in_hex", "in_bytes", "in_bit", "in_as_hex", "in_dec_until", "in_idec_until", "in_dec", "in_idec", "out_hex", "out_bytes",
+           "out_bit", "print_digits", "print_bits", "print_uint", "print_int", "print_dec_uint", "print_dec_int", "bit2hex", "hex2bit"}
+Apply(st, s, B) == IF s.k \in IOKeys THEN ApplyIO(st, s, B)
+                   ELSE LET r == ApplyCore(st, s, B) IN [st |-> r.st, br |-> r.br, dontcare |-> {}]
 =============================================================================
